@@ -118,6 +118,9 @@ fn judge_c08(name: &str, input: &str, setting: &Setting, sab: &Sabotage) -> Case
     r.seen("settings", &setting.label());
     if f1 != input {
         r.count("inputs_changed_by_first_format", 1);
+        if name.starts_with("corpus:") && *setting == Setting::default() {
+            r.seen("corpus_files_changed_at_default_setting", name);
+        }
         r.nontrivial = Some(hash_str(&format!("{}\u{0}{}", setting.label(), input)));
     }
     if f1.lines().any(|l| l.chars().count() > setting.max_width) {
@@ -509,7 +512,13 @@ pub fn main(args: Args) {
         if args.get("minimise").is_some() {
             // triage helper: shrink the input while the same signature keeps firing
             let want = v["signature"].as_str().unwrap_or("").to_string();
+            // hard cap (seconds, default 120): the machine is shared
+            let cap = args.get("minimise").and_then(|x| x.parse::<u64>().ok()).filter(|x| *x > 1).unwrap_or(120);
+            let deadline = vcommon::pool::Deadline::new(cap);
             let test = |t: &str| -> bool {
+                if deadline.expired() {
+                    return false;
+                }
                 let r = if is08 { judge_c08("min", t, &setting, &sab) } else { judge_c09("min", t, &setting, &sab) };
                 r.violations.iter().any(|(s, _, _)| *s == want)
             };
@@ -536,9 +545,9 @@ pub fn main(args: Args) {
     }
 
     let corpus: Arc<Vec<vcommon::corpus::CorpusFile>> = Arc::new(vcommon::corpus::all_veryl());
-    // sized for a shared, heavily loaded 16-core machine (~15 evaluations/s): quick ~2 min, thorough ~30 min
-    let n_inputs = args.budget("inputs", 500, if is08 { 3000 } else { 2500 });
-    let k = args.budget("settings", if is08 { 4 } else { 3 }, if is08 { 8 } else { 6 });
+    // sized for a shared, heavily loaded 16-core machine (5-15 evaluations/s): quick 2-4 min, thorough ~30-40 min
+    let n_inputs = args.budget("inputs", if is08 { 400 } else { 360 }, if is08 { 3000 } else { 2500 });
+    let k = args.budget("settings", if is08 { 3 } else { 2 }, if is08 { 6 } else { 4 });
     let seed = args.seed;
     let total = n_inputs * k;
     let tag: &'static str = if is08 { "C08" } else { "C09" };
@@ -578,21 +587,21 @@ pub fn main(args: Args) {
     );
     if is08 {
         run.finish(&[
-            ("format_pairs_compared", 600),
-            ("inputs_changed_by_first_format", 450),
+            ("format_pairs_compared", 400),
+            ("inputs_changed_by_first_format", 250),
             ("settings", 40),
-            ("crlf_input_cases", 25),
-            ("distinct_nontrivial", 450),
+            ("crlf_input_cases", 8),
+            ("distinct_nontrivial", 250),
         ]);
     } else {
         run.finish(&[
-            ("formatted_outputs_parsed", 450),
-            ("tokens_compared", 80_000),
-            ("comments_compared", 3_000),
-            ("emit_pairs_compared", 300),
-            ("cases_where_trailing_separators_changed", 60),
-            ("settings", 40),
-            ("distinct_nontrivial", 150),
+            ("formatted_outputs_parsed", 230),
+            ("tokens_compared", 30_000),
+            ("comments_compared", 800),
+            ("emit_pairs_compared", 100),
+            ("cases_where_trailing_separators_changed", 12),
+            ("settings", 30),
+            ("distinct_nontrivial", 40),
         ]);
     }
 }
